@@ -22,7 +22,9 @@ RULE = ("round trip: generated configurations over every subset of the 15 option
         "never-used profile -, to a path with extension, to a path without extension, to config.<ext> inside the profile "
         "directory) and loaded through ConfigManager.load by that path or by profile name. Crash: a save of configuration B over "
         "an existing profile holding A is executed under the crash-point recorder; every distinct on-disk state observed at a "
-        "C-call boundary is loaded by profile name and must equal A or B. Non-trivial = at least 3 optional fields, or a "
+        "C-call boundary is loaded by profile name and must equal A or B. Profile API: the configuration is loaded through "
+        "YowProfile(name).config, changed through the field setters, written with YowProfile.write_config under the recorder and "
+        "loaded by a fresh YowProfile (what the noise layer does when the server key changes). Non-trivial = at least 3 optional fields, or a "
         "non-ASCII value, or a crash case (each crash state counts as one evaluation). Distinct = distinct canonical JSON.")
 ASSUMPTIONS = [
     "crash model: process death (kill -9) at C-level call boundaries; no torn single write() and no power loss",
@@ -96,6 +98,8 @@ def run_case(case):
             _roundtrip(case, out, home)
         elif case["sub"] == "crash":
             _crash(case, out, home)
+        elif case["sub"] == "profile_api":
+            _profile_api(case, out, home)
         else:
             raise ValueError(case["sub"])
     finally:
@@ -223,6 +227,80 @@ def _crash(case, out, home):
         shutil.rmtree(snaproot, ignore_errors=True)
 
 
+def _profile_api(case, out, home):
+    """the way the stack itself uses the configuration: loaded through YowProfile(name).config, changed through the field setters
+    (the noise layer stores a changed server key like this during login), written back through YowProfile.write_config - under the
+    crash-point recorder - and loaded by a fresh YowProfile"""
+    from yowsup.profile.profile import YowProfile
+    profile = case.get("profile", "acct1")
+    old = build_config(case["old"])
+    out.label("profile_api")
+    out.info = {"nt": True}
+    try:
+        ConfigManager().save(profile, old)
+        p = YowProfile(profile)
+        c = p.config
+    except Exception as e:
+        out.fail("load", "profile_api:load_raises:%s" % type(e).__name__, {"error": _exc(e)})
+        return
+    d = config_diff(old, c)
+    if d:
+        out.fail("roundtrip", "profile_api:loaded_config_differs", {"diff": d})
+        return
+    exp_user = old.login or old.phone or profile
+    if p.username != exp_user:
+        out.fail("roundtrip", "profile_api:username_differs", {"got": repr(p.username), "expected": repr(exp_user)})
+        return
+    merged = dict(case["old"])
+    merged.update(case["edits"])
+    expected = build_config(merged)
+    edits_obj = build_config(case["edits"])
+    try:
+        for k in case["edits"]:
+            setattr(c, k, getattr(edits_obj, k))
+    except Exception as e:
+        out.fail("save", "profile_api:setter_raises:%s" % type(e).__name__, {"error": _exc(e)})
+        return
+    snaproot = os.path.join(home, "..", "snaps_" + os.path.basename(home))
+    os.makedirs(snaproot, exist_ok=True)
+    rec = CrashRecorder(home, snaproot)
+    try:
+        res, exc = rec.run(lambda: p.write_config(c))
+        if exc is not None:
+            out.fail("save", "profile_api:write_config_raises:%s" % type(exc).__name__, {"error": _exc(exc)})
+            return
+        states = 0
+        for tag, path, fp in rec.snaps:
+            os.environ["XDG_CONFIG_HOME"] = path
+            os.environ["HOME"] = path
+            states += 1
+            try:
+                got = YowProfile(profile).config
+            except Exception as e:
+                out.fail("crash", "crash:profile_does_not_load", {"at": tag, "state": states, "error": _exc(e), "files": [f for f, h in fp]})
+                break
+            if config_diff(old, got) and config_diff(expected, got):
+                out.fail("crash", "crash:neither_previous_nor_new", {"at": tag, "state": states, "vs_new": config_diff(expected, got)})
+                break
+        os.environ["XDG_CONFIG_HOME"] = home
+        os.environ["HOME"] = home
+        if out.violations:
+            return
+        try:
+            final = YowProfile(profile).config
+        except Exception as e:
+            out.fail("load", "profile_api:reload_raises:%s" % type(e).__name__, {"error": _exc(e)})
+            return
+        d = config_diff(expected, final)
+        if d:
+            out.fail("roundtrip", "profile_api:written_config_differs", {"diff": d, "edited": sorted(case["edits"])})
+        out.evals = max(1, states)
+    finally:
+        rec.cleanup()
+        import shutil
+        shutil.rmtree(snaproot, ignore_errors=True)
+
+
 def nontrivial(case, out):
     return bool(out.info and out.info.get("nt"))
 
@@ -290,6 +368,11 @@ def crash_strategy():
                      fields_strategy("json"), fields_strategy("json"), _profile)
 
 
+def profile_api_strategy():
+    return st.builds(lambda a, b, p: {"sub": "profile_api", "old": a, "edits": b, "profile": p},
+                     fields_strategy("json"), fields_strategy("json"), _profile)
+
+
 def _enum_basic():
     kp = ("11" * 32) + ("22" * 32)
     base = {"phone": "4915112345678", "cc": "49", "client_static_keypair": kp}
@@ -301,6 +384,9 @@ def _enum_basic():
             for how in hows:
                 yield {"sub": "rt", "fmt": fmt, "how": how, "fields": fields, "profile": "acct1"}
     yield {"sub": "crash", "old": base, "new": full, "profile": "acct1"}
+    yield {"sub": "profile_api", "old": base, "edits": {"server_static_public": "55" * 32}, "profile": "4915112345678"}
+    yield {"sub": "profile_api", "old": full, "edits": {"server_static_public": "66" * 32, "pushname": "new name", "edge_routing_info": "0a0b"},
+           "profile": "acct2"}
     yield {"sub": "crash", "old": full, "new": dict(full, server_static_public="44" * 32), "profile": "4915112345678"}
 
 
@@ -312,6 +398,7 @@ def plan(tier):
         "strategies": [
             ("roundtrip", rt_strategy(), 190 if quick else 6000),
             ("crash", crash_strategy(), 20 if quick else 600),
+            ("profile_api", profile_api_strategy(), 20 if quick else 600),
         ],
         "shrink": "hypothesis",
         "budget_s": 150 if quick else 1500,
